@@ -1,5 +1,6 @@
 import Pi2.NotationThm
 import Pi2.PyTie
+import Pi2.Nary
 /-!
 # C12 — notation is transparent
 
@@ -65,6 +66,22 @@ theorem simplify_transparent (n : Nat) (p : NPat) (m : List (Nat × NPat)) (s : 
   have hs : p.Shape = true ∧ ShapeMap m = true := by simpa [NPat.Shape] using hp
   have := (instF_expand n m p s hs.1 hs.2 h).1
   rw [this]; rfl
+
+/-- `deconstruct_nary_application` of `proofs/kore.py` (the application spine, looking through notation on the
+spine; `none` = `RecursionError`) sees through notation: destructuring and then expanding head and arguments is
+expanding and then destructuring (`Pat.nary`); head and arguments are shaped again -/
+theorem nary_transparent (n : Nat) (p h : NPat) (as : List NPat) (hp : p.Shape = true)
+    (hr : naryF n p = some (h, as)) :
+    Pat.nary p.expand = (h.expand, as.map NPat.expand) ∧ h.Shape = true ∧ (∀ a ∈ as, a.Shape = true) :=
+  NPat.naryF_expand n p h as hp hr
+
+/-- … and the head it returns is neither a notation node nor an application, and applying the expanded head to the
+expanded arguments gives back the expansion of the pattern -/
+theorem nary_head_and_rebuild (n : Nat) (p h : NPat) (as : List NPat) (hp : p.Shape = true)
+    (hr : naryF n p = some (h, as)) :
+    h.isInst = false ∧ h.isApp = false ∧ (as.map NPat.expand).foldl Pat.app h.expand = p.expand :=
+  ⟨(NPat.naryF_expand_full n p h as hp hr).2.2.2.1, (NPat.naryF_expand_full n p h as hp hr).2.2.2.2,
+   NPat.naryF_rebuild n p h as hp hr⟩
 
 /-- composition of instantiations on expansions (the algebraic law behind C11's "instantiating twice
 equals instantiating once with the composed map") -/
